@@ -99,13 +99,17 @@ Definition check (c : case) : N :=
                           | Step ci o obs =>
                             let b := step trie_ix e (br s) ci o in
                             let sb := step held_ix e (sp s) ci o in
+                            (* what the ending connection itself still receives while it is being closed
+                               (notifications about its own subscriptions going away, raced by the
+                               dispatcher) is not part of any property: not compared *)
+                            let judged := match o with OEnd _ => filter (fun i => negb (i =? ci)) (clients n) | _ => clients n end in
                             let oc := fold_left (fun acc i =>
                                          let ob := nth (N.to_nat i) obs [] in
                                          let d := mset_diff (out_of sb i) ob ++ mset_diff ob (out_of sb i) in
                                          fold_left (fun a p => a |+| classify o p) d acc
                                          |+| (match o with OSub _ _ _ => if i =? ci then bit (replay_before_ack ob false) 4 else 0 | _ => 0 end))
-                                       (clients n) 0 in
-                            St b sb (ok s && forallb (fun i => mset_eqb (out_of b i) (nth (N.to_nat i) obs [])) (clients n))
+                                       judged 0 in
+                            St b sb (ok s && forallb (fun i => mset_eqb (out_of b i) (nth (N.to_nat i) obs [])) judged)
                                (code s |+| oc)
                           end) steps (St (broker0 trie_ix subs) (broker0 held_ix subs) true 0) in
     let mine := filter (fun p => negb ((snd p =? watcher) || (snd p =? helper))) dump in
